@@ -80,6 +80,15 @@ def contracts(reg):
             2: dict(inv=[TOT.format(a="rho2")], use_post=[STEP]),
         }))
 
+    # integer-typed initial populations (e.g. numpy.array([1, 0, 0])) must be propagated as real numbers
+    def setup_pp_int(S):
+        d = setup_pp(S)
+        d["pini"] = S.array("pini", (d["N"],), "int")
+        return d
+    base_c = reg.contracts[PP + "PopulationPropagator._propagate_short_exp"]
+    reg.add(Contract(PP + "PopulationPropagator._propagate_short_exp#integer-initial-populations", setup=setup_pp_int,
+                     requires=list(base_c.requires), ensures=list(base_c.ensures), loops=base_c.loops))
+
     def setup_ppi(S):
         nt = S.int("Nt")
         ta = S.obj("TimeAxis(stub)", label="timeaxis", length=nt, step=S.real("step"))
@@ -182,9 +191,11 @@ def plan(ctx):
     p = Plan("C17")
     contracts(ctx.registry)
     p.functions = [RM + "RateMatrix.set_rate", RM + "RateMatrix.__init__#dim",
-                   PP + "PopulationPropagator.__init__", PP + "PopulationPropagator._propagate_short_exp"]
+                   PP + "PopulationPropagator.__init__", PP + "PopulationPropagator._propagate_short_exp",
+                   PP + "PopulationPropagator._propagate_short_exp#integer-initial-populations"]
     p.lemmas = [lemma_colsum]
     p.replayers = [replayer]
+    p.oracles = ["native/oracle_C17.py"]
     p.not_decided = ["non-negativity of populations for admissible steps and agreement with exp(K t) within the "
                      "truncation bound (error analysis of a truncated Taylor series)",
                      "get_PropagationMatrix: values depend on numpy.linalg.eig/inv of a non-symmetric matrix and on "
